@@ -3,6 +3,7 @@ package main
 import (
 	"bytes"
 	"fmt"
+	"runtime/debug"
 	"sort"
 	"strings"
 
@@ -484,6 +485,22 @@ func (hs *history) opGC() {
 	hs.unchanged("gc", "c03:gc-changed-committed-data")
 }
 
+// headHandedOver: n is the old domain o with its end moved forward, up to the start a of
+// the delete, over the sample-free head of the old domain that followed o without a gap
+// and was cut by the delete. The stretch of time changes owner, no sample does; coverage
+// neither grows nor overlaps (engine repair 8e23491 keeps the head covered this way).
+func headHandedOver(n, o dom, a int64, old []dom) bool {
+	if n.S != o.S || !bytes.Equal(n.Data, o.Data) || n.E <= o.E || n.E > a {
+		return false
+	}
+	for _, x := range old {
+		if x.S == o.E && x.E >= n.E {
+			return true
+		}
+	}
+	return false
+}
+
 // opDelete: the statement only requires that what remains is still a set of ordered,
 // non-overlapping ranges lying within their files and that nothing outside [a,b) is
 // touched. Exactness of the cut is C04's business: the model adopts the observed state
@@ -506,6 +523,10 @@ func (hs *history) opDelete(a, b int64) {
 	for _, n := range ds {
 		found := false
 		for _, o := range hs.state {
+			if headHandedOver(n, o, a, hs.state) {
+				found = true
+				break
+			}
 			if n.S >= o.S && n.E <= o.E && bytes.Contains(o.Data, n.Data) {
 				found = true
 				// untouched region: if the old domain lies fully outside [a,b) it must be identical
@@ -528,7 +549,7 @@ func (hs *history) opDelete(a, b int64) {
 		}
 		found := false
 		for _, n := range ds {
-			if n.S == o.S && n.E == o.E && bytes.Equal(n.Data, o.Data) {
+			if (n.S == o.S && n.E == o.E && bytes.Equal(n.Data, o.Data)) || headHandedOver(n, o, a, hs.state) {
 				found = true
 			}
 		}
@@ -609,6 +630,25 @@ func (hs *history) deleteLegal(a, b int64) bool {
 }
 
 func (hs *history) run(nOps, maxWriters int) {
+	// "fails cleanly": a panic inside the engine while the history runs is a verdict of
+	// this property, not a crash of the monitor
+	defer func() {
+		if p := recover(); p != nil {
+			where := "unknown"
+			for _, line := range strings.Split(string(debug.Stack()), "\n") {
+				if strings.HasPrefix(line, "github.com/synnaxlabs/cesium") {
+					where = line
+					if i := strings.LastIndex(where, "("); i > 0 {
+						where = where[:i]
+					}
+					where = strings.TrimPrefix(where, "github.com/synnaxlabs/cesium/")
+					break
+				}
+			}
+			hs.dead = true
+			hs.h.Violation(hs.layer, hs.c, "c03:engine-panic:"+where, fmt.Sprintf("the engine panicked during a history of open/write/commit/close/delete operations: %v (in %s)", p, where), map[string]any{"stack": string(debug.Stack())})
+		}
+	}()
 	r := hs.r
 	st, ok := hs.observe("start")
 	if !ok {
